@@ -721,7 +721,11 @@ def apply_contract(ip, c, f, args, kw):
         for cl in clauses(pv):
             z = ip.zbool(cl)
             if z3.is_false(simp(z)) and (gz is None or z3.is_true(simp(gz))):
-                # assuming it would make everything after the call vacuously true (typically: the callee's contract has no
+                if c.returns is not None:
+                    # one of the alternatives the `returns` builder enumerates (e.g. None of an Opt) contradicts the
+                    # postcondition: the callee never returns that; this path does not exist
+                    raise PathEnd()
+                # assuming it would make everything after the call vacuously true (the callee's contract has no
                 # `returns` builder, so `result` is None and `result == ...` is plainly False)
                 raise Unsupported("postcondition %s of %s is plainly false at this call (contract without `returns`?)" % (name, c.target))
             st.assume(z if gz is None else z3.Implies(gz, z))
